@@ -71,6 +71,8 @@ M = [
  ("s4_reap_join_locked", "src/scheduler/core.rs", "        let mut dead_threads = vec![];\n\n        // Collate the dead threads into a vec\n        {\n", "        let mut dead_threads = vec![];\n\n        // Collate the dead threads into a vec\n        let _keep = self.max_threads.lock().expect(\"Max threads lock\");\n        {\n", "C10 C15"),
  ("s4_nexttorun_takes_panicked", "src/scheduler/core.rs", "                QueueState::Pending |\n                QueueState::WaitingForPoll(_) => {", "                QueueState::Pending | QueueState::Panicked |\n                QueueState::WaitingForPoll(_) => {", "C15"),
  ("s4_detach_releases", "src/scheduler/scheduler_future.rs", "        // Nothing to do, this just drops the future\n", "        // Nothing to do, this just drops the future\n        self.queue.core.lock().expect(\"JobQueue core lock\").state = QueueState::Idle;\n", "C01 C07"),
+ ("s4_pool_waker_other_queue", "src/scheduler/core.rs", "let waker       = Arc::new(WakeQueue(Arc::clone(&work), Arc::clone(&work_core)));", "let waker       = Arc::new(WakeQueue(Arc::new(JobQueue::new()), Arc::clone(&work_core)));", "C03 C06"),
+ ("s4_sync_waker_other_queue", "src/scheduler/job_queue.rs", "let waker       = Arc::new(WakeThread(Arc::clone(queue), thread::current()));", "let waker       = Arc::new(WakeThread(Arc::new(JobQueue::new()), thread::current()));", "C04 C06"),
 ]
 PROPS = ["C%02d" % i for i in range(1, 18)]
 # usage: tools/mutants.py [name-substring] [-j N] [--all]     (default: only the properties each mutant is expected to break, 6 at a time)
